@@ -34,6 +34,7 @@ static double pick_flt(void) {
   unsigned k = u8();
   if (k < 160) { return grid[k % (sizeof grid / sizeof grid[0])]; }
   if (k < 200) { return (double)(int64_t)u64() / 1024.0; }
+  if (k < 230) { double d = 1.0 + (u8() % 90) / 10.0; unsigned e = u8() % 150 + u8() % 150; for (unsigned i = 0; i < e; i++) { d *= 10.0; } return (u8() & 1) ? -d : d; }   /* every %f text length */
   uint64_t b = u64(); double d; memcpy(&d, &b, 8);
   if (d != d or d - d != 0.0) { return 1.25; }       /* no NaN / inf here */
   return d;
